@@ -179,7 +179,7 @@ func (s *Set) Complement(endSymbol rune) *Set {
 		return set
 	}
 	a, b := &s.Head, &set.Head
-	pre := rune(0)
+	pre, tail := rune(0), true
 	if pre == a.Forward.Begin {
 		a = a.Forward
 		pre = a.End + 1
@@ -192,7 +192,8 @@ func (s *Set) Complement(endSymbol rune) *Set {
 			End:      a.Begin - 1,
 		}
 		if a.End == endSymbol {
-			pre = endSymbol
+			/* nothing is left above the last interval (and End + 1 may overflow) */
+			tail = false
 		} else {
 			pre = a.End + 1
 		}
@@ -200,7 +201,7 @@ func (s *Set) Complement(endSymbol rune) *Set {
 		a = a.Forward
 		b = b.Forward
 	}
-	if pre < endSymbol {
+	if tail {
 		node := Node{
 			Backward: b,
 			Begin:    pre,
